@@ -346,4 +346,38 @@ def rule_graphs(ctx):
         ctx.add("GRAPH", "cli:" + prop_, hit, ctx.site(m), "analyze --property dispatches %s to %s" % (prop_, fn_))
 
 
-RULES = [rule_enforcement, rule_ensure_templates, rule_graphs]
+def rule_entry_collectors(ctx):
+    """The validation reads the user guide through its collectors: each collector hands out every entry of its kind (a declaration that is
+    skipped is a declaration that is never checked for conflicts)."""
+    from .. import sym, leaves
+    fx = ctx.facts
+    table = {"placeholders": "UserGuideEntry::PlaceholderDeclaration", "formulas": "UserGuideEntry::AnnotatedFormula",
+             "input_predicates": "UserGuideEntry::InputPredicate", "output_predicates": "UserGuideEntry::OutputPredicate"}
+    entry = ("each", ("place", "self.entries"))
+    for name, variant in table.items():
+        b = fx.fn("UserGuide::" + name)
+        site = ctx.site(b)
+        v = sym.Eval(fx, inline_depth=0).function(b)
+        lv = leaves.leaves(v)
+        is_v = ("is", entry, variant)
+        payload = ("proj", entry, ((variant, "0"),))
+        taken = [(ts, x) for ts, x in lv if is_v in ts]
+        other = [(ts, x) for ts, x in lv if is_v not in ts]
+
+        def adds(x):
+            # upd(acc(init), insert|push, (payload or a conversion of it,))
+            if not (isinstance(x, tuple) and x[:1] == ("upd",) and x[2] in ("insert", "push") and len(x[3]) == 1):
+                return False
+            a = leaves.norm(x[3][0])
+            while isinstance(a, tuple) and a[:1] == ("call",) and a[1].startswith("From::from[") and len(a[2]) == 1:
+                a = a[2][0]
+            return a == payload and isinstance(x[1], tuple) and x[1][:1] == ("acc",)
+        inits = {leaves.strip_acc(x[1]) for _, x in taken if isinstance(x, tuple) and x[:1] == ("upd",)}
+        ok_taken = bool(taken) and all(ts == (is_v,) and adds(x) for ts, x in taken)
+        ok_other = len(inits) == 1 and all(leaves.strip_acc(x) in inits for _, x in other)
+        ctx.add("COLLECT", "UserGuide::%s:every-entry" % name, ok_taken, site,
+                "every %s entry is added to the result, unconditionally: %s" % (variant.split("::")[1], [(list(ts), sym.pretty(x)[:80]) for ts, x in taken][:3]))
+        ctx.add("COLLECT", "UserGuide::%s:nothing-else" % name, ok_other, site, "entries of another kind leave the result unchanged")
+
+
+RULES = [rule_enforcement, rule_ensure_templates, rule_graphs, rule_entry_collectors]
